@@ -106,6 +106,16 @@ def scenario(ctx, rng, tmpdir):
     with isoapi.frozen_time():
         s = histcheck.drive(ctx, rng, cfg, rng.choice([0, 3, 8]), tmpdir=tmpdir)
         iso = s.iso
+        # copies of the PVD on a bootable image: the El Torito boot record still has to be at sector 17
+        dup_rng = random.Random(scenario.seed ^ 0xd0b1e)
+        dups = dup_rng.choice([0, 0, 0, 1, 2])
+        dup_first = dup_rng.random() < 0.5
+        if dup_first:
+            for _ in range(dups):
+                try:
+                    iso.duplicate_pvd()
+                except Exception as e:  # noqa
+                    ctx.notes.append('duplicate_pvd refused: %r' % e)
         nboot = rng.choice([1, 1, 2, 3, 4]) if ctx.quick else rng.choice([1, 2, 3, 5, 12, 32])
         boots = []
         first_platform = None
@@ -239,6 +249,13 @@ def scenario(ctx, rng, tmpdir):
                 unlinked.add(b['name'])
             except Exception as e:  # noqa
                 viol('C11.unlink-boot-raises/%s' % isoapi.exc_class(e), 'rm_hard_link of the boot file names raised %r' % e)
+        if not dup_first:
+            for _ in range(dups):
+                try:
+                    iso.duplicate_pvd()
+                except Exception as e:  # noqa
+                    ctx.notes.append('duplicate_pvd refused: %r' % e)
+        ctx.dist['pvd-copies:%d' % dups] += 1
         # correspondence: catalog bytes
         cat = iso.eltorito_boot_catalog
         path = os.path.join(tmpdir, 'b%d.iso' % rng.randrange(10 ** 12))
@@ -262,11 +279,11 @@ def scenario(ctx, rng, tmpdir):
     # the catalog as the library reads it back vs the model's parser, on the image and on a few damaged catalogs
     rp_cat = {'kind': 'scenario', 'seed': scenario.seed}
     catalog_read_corr(ctx, img, 'scenario', rp_cat, must_open=True)
-    catsec0 = struct.unpack_from('<L', img, 17 * 2048 + 71)[0]
-    for _ in range(4):
+    catsec0 = find_catalog_sector(img)
+    for _ in range(4 if catsec0 is not None else 0):
         m = bytearray(img)
         for _k in range(rng.randint(1, 3)):
-            chunk = rng.randrange(2, 2 + 2 * len(boots) + 2)
+            chunk = min(63, rng.randrange(2, 2 + 2 * len(boots) + 2))
             if rng.random() < 0.6:
                 m[catsec0 * 2048 + 32 * chunk] = rng.choice([0, 0x44, 0x88, 0x90, 0x91, 0x42])
             else:
@@ -597,11 +614,27 @@ def cat_canon(cat):
     return 'plat%d ini%s secs%s alone%s' % (cat.validation_entry.platform_id, ent(cat.initial_entry), ';'.join(secs), '/'.join(ent(e) for e in cat.standalone_entries))
 
 
+def find_catalog_sector(data):
+    """sector of the boot catalog according to the El Torito boot record, wherever in the descriptor set it is (None: no
+    boot record)"""
+    sec = 16
+    while (sec + 1) * 2048 <= len(data) and data[sec * 2048 + 1: sec * 2048 + 6] == b'CD001':
+        if data[sec * 2048] == 0 and data[sec * 2048 + 7: sec * 2048 + 30] == b'EL TORITO SPECIFICATION':
+            cat = struct.unpack_from('<L', data, sec * 2048 + 71)[0]
+            return cat if (cat + 1) * 2048 <= len(data) else None
+        if data[sec * 2048] == 255:
+            break
+        sec += 1
+    return None
+
+
 def catalog_read_corr(ctx, data, label, rp, must_open=False):
     """correspondence for `Boot.parseCatalog` (theorem catalog_parse_roundtrip): the catalog pycdlib reconstructs when it
     opens `data` against the model run on the bytes from the catalog's sector on."""
     import pycdlib
-    catsec = struct.unpack_from('<L', data, 17 * 2048 + 71)[0]
+    catsec = find_catalog_sector(data)
+    if catsec is None:
+        return
     chunk = data[catsec * 2048: catsec * 2048 + 4096]
     model = ctx.driver.ask(['eltparse %s' % (chunk.hex() or '-')])[0]
     g = pycdlib.PyCdlib()
